@@ -245,6 +245,7 @@ type c07Req struct {
 	SiteSeen   int    `json:"site_seen"`
 	Complete   bool   `json:"complete"`
 	Status     int    `json:"status,omitempty"`
+	GivenUp    bool   `json:"given_up_addr,omitempty"` // sent on purpose to an address the configuration no longer serves
 }
 
 type c07Target struct {
@@ -377,6 +378,7 @@ type c07Obs struct {
 	WaitEarly bool    `json:"wait_returned_early,omitempty"`
 	WaitStuck bool    `json:"wait_stuck_after_stop,omitempty"`
 	Invalid   bool    `json:"harness_invalid,omitempty"`
+	Suspects  []string `json:"suspect_requests,omitempty"` // reporting aid only (the verdict is Coq's)
 }
 
 type c07Lineage struct {
@@ -421,7 +423,7 @@ func (l *c07Lineage) request(t c07Target, force bool) {
 	l.mu.Unlock()
 	status, x, xcfg, body, err := c07DoRequest(c07IP(t.slot), t.port, c07Host(t.slot, t.site), k)
 	te := l.now()
-	r := c07Req{K: k, Addr: t.maddr, Site: t.site, StartNs: ts, EndNs: te, Status: status}
+	r := c07Req{K: k, Addr: t.maddr, Site: t.site, StartNs: ts, EndNs: te, Status: status, GivenUp: force}
 	if err != nil {
 		r.Err = c07ErrClass(err) + ": " + err.Error()
 		if strings.HasPrefix(r.Err, "timeout") {
@@ -894,11 +896,57 @@ func c07RunLineage(in *c07In) (res Result) {
 				break
 			}
 		}
-		if r.Err != "" && len(obs.Errors) < 8 {
+		if r.Err != "" && !r.GivenUp && len(obs.Errors) < 8 {
 			obs.Errors = append(obs.Errors, r)
 		}
 		if r.Err == "" && (!r.Complete || r.SiteSeen != r.Site) && len(obs.Odd) < 8 {
 			obs.Odd = append(obs.Odd, r)
+		}
+	}
+	// reporting aid: which requests look wrong and why (same interval reasoning as the Coq spec,
+	// recomputed here only to make replays readable; it decides nothing)
+	{
+		type rel struct {
+			call, ret int64
+			ok       bool
+			n        int
+		}
+		var rels []rel
+		for _, e := range l.events {
+			if strings.HasPrefix(e.term, "(ECall") {
+				rels = append(rels, rel{call: e.ts, n: len(rels) + 1})
+			} else if strings.HasPrefix(e.term, "(ERet") {
+				rels[len(rels)-1].ret = e.ts
+				rels[len(rels)-1].ok = e.term == "(ERet 0%nat)"
+			}
+		}
+		for _, r := range l.reqs {
+			if len(obs.Suspects) >= 8 {
+				break
+			}
+			cur := 0
+			allowed := map[int]bool{}
+			for _, v := range rels {
+				if v.ret != 0 && v.ret < r.StartNs {
+					if v.ok {
+						cur = v.n
+					}
+					continue
+				}
+				if v.call < r.EndNs && v.ok {
+					allowed[v.n] = true
+				}
+			}
+			allowed[cur] = true
+			switch {
+			case r.GivenUp && r.Err != "":
+			case r.Err != "":
+				obs.Suspects = append(obs.Suspects, fmt.Sprintf("request %d (addr %d site %d, %d..%d us): transport error %q", r.K, r.Addr, r.Site, r.StartNs/1000, r.EndNs/1000, r.Err))
+			case !allowed[r.Marker]:
+				obs.Suspects = append(obs.Suspects, fmt.Sprintf("request %d (addr %d site %d, %d..%d us): answered by configuration %d; in force at its start: %d, possible: %v", r.K, r.Addr, r.Site, r.StartNs/1000, r.EndNs/1000, r.Marker, cur, allowed))
+			case r.SiteSeen != r.Site || !r.Complete:
+				obs.Suspects = append(obs.Suspects, fmt.Sprintf("request %d (addr %d site %d): answered by site %d, complete=%v", r.K, r.Addr, r.Site, r.SiteSeen, r.Complete))
+			}
 		}
 	}
 	for _, e := range l.events {
